@@ -149,18 +149,15 @@ bool c09_streq(const std::string *a, const char *b) asm("_ZSteqIcSt11char_traits
 bool c09_streq(const std::string *a, const char *b) {
   const char *p = a->_M_dataplus._M_p;
   unsigned long len = a->_M_string_length;
-  if (p == a->_M_local_buf) {               // SSO: all 16 bytes of the buffer are readable
-    unsigned long w = 0, m = 0;             // the literal (at most 8 characters here) as one word
-    unsigned n = 0;
-    while (b[n] && n < 8) { w |= (unsigned long)(unsigned char)b[n] << (8 * n); m |= 0xfful << (8 * n); n++; }
-    if (b[n] == 0) {
-      unsigned long v = 0;
-      for (unsigned j = 0; j < 8; j++) v |= (unsigned long)(unsigned char)p[j] << (8 * j);
-      return (len == n) & ((v & m) == w);
-    }
-  }
   unsigned n = 0;
-  while (b[n]) n++;
+  unsigned long w = 0;                      // the first (at most 8) characters of the literal as one word
+  while (b[n]) { if (n < 8) w |= (unsigned long)(unsigned char)b[n] << (8 * n); n++; }
+  if (p == a->_M_local_buf && n <= 8) {     // SSO: all 16 bytes of the (8-aligned) buffer are readable
+    unsigned long v;
+    __builtin_memcpy(&v, p, 8);
+    unsigned long m = n == 8 ? ~0ul : ((1ul << (8 * n)) - 1ul);
+    return (len == n) & ((v & m) == w);
+  }
   bool r = len == n;
   if (r) for (unsigned j = 0; j < n; j++) r &= (p[j] == b[j]);
   return r;
